@@ -2,7 +2,11 @@
 
 package leader
 
-import "time"
+import (
+	"time"
+
+	"go.uber.org/zap"
+)
 
 var vpOtherPrio int // priority stored in the foreign record that vpFollowingInstance starts next to
 
@@ -293,4 +297,53 @@ func vpH_C07_T_mixed_priority() {
 	vpCover("C07.mixed-priority")
 	vpAssert("C07.no-spurious-edge", s.e.IsLeader() && s.cb.demotes == 0)
 	vpAssert("C07.owner-stable", s.st.live() && vpRecID(s.st.val) == "a" && vpRecTok(s.st.val) == tok)
+}
+
+// logger that takes time on chosen log lines (synchronous log sinks do)
+type vpSlowLogger struct {
+	at  map[string]bool
+	max time.Duration
+}
+
+func (l *vpSlowLogger) hit(msg string) {
+	if l.at[msg] {
+		vpDelay("log."+msg, 0, l.max)
+	}
+}
+func (l *vpSlowLogger) Debug(msg string, fields ...zap.Field) { l.hit(msg) }
+func (l *vpSlowLogger) Info(msg string, fields ...zap.Field)  { l.hit(msg) }
+func (l *vpSlowLogger) Warn(msg string, fields ...zap.Field)  { l.hit(msg) }
+func (l *vpSlowLogger) Error(msg string, fields ...zap.Field) { l.hit(msg) }
+func (l *vpSlowLogger) Fatal(msg string, fields ...zap.Field) { l.hit(msg) }
+
+// vpH_C07_T_slow_logger: the follower's log sink takes up to 200 ms on the "leader_changed" line (the watch
+// goroutine is busy with it). The first owner leaves (an acquisition round starts), a third instance holds the
+// record for a moment (that is the notification being logged) and leaves; the round wins the vacancy while the
+// watch goroutine is still inside the log call. When it comes back it must not treat what it was told before
+// as news about the record the instance now owns: the new leader stays leader.
+func vpH_C07_T_slow_logger() {
+	H := time.Second
+	vpSetOpt("rand-fixed", 1)
+	s := vpFollowingInstance(H, func(cfg *ElectionConfig) {
+		cfg.Logger = &vpSlowLogger{at: map[string]bool{"leader_changed": true}, max: 200 * time.Millisecond}
+	})
+	time.Sleep(700 * time.Millisecond)
+	vpQuiesce()
+	s.st.write("env:other", "delete", nil, true, 0)
+	s.st.write("env:third", "create", vpRecMk("third", "tok-third", 0), false, 0)
+	time.Sleep(20 * time.Millisecond)
+	s.st.write("env:third", "delete", nil, true, 0)
+	time.Sleep(600 * time.Millisecond)
+	vpQuiesce()
+	if s.cb.promotes == 0 {
+		vpEndPath("not-elected-yet")
+	}
+	tok := s.cb.lastTok
+	time.Sleep(2*H + H/2)
+	vpQuiesce()
+	vpCover("C07.slow-logger")
+	vpAssert("C07.no-spurious-edge", s.edges == 0 && s.e.IsLeader())
+	vpAssert("C07.no-demote-callback", s.cb.demotes == 0)
+	vpAssert("C07.token-stable", s.e.Token() == tok && s.cb.promotes == 1)
+	vpAssert("C18.leader-snapshot", s.e.Status().LeaderID == "a")
 }
